@@ -17,6 +17,30 @@ CHECKS = {
              "(vm_compute) and comparing which clause answered / whether the call panicked / what verification names.",
         design_ref="DESIGN.md section 7, C01",
         technique="Coq proof (refinement to first_match + frame lemmas) + model/implementation co-execution"),
+    "C02": dict(
+        text="Machine-checked theorems (Props/C02.v): every well-typed builder chain stores its responses keyed by the prefix sums of the "
+             "repeat counts; the transcribed binary search + post-processing returns, for every count list (zero counts included) and every k, "
+             "the segment 'first i with n1+..+ni >= k, else last'; a pattern's counter equals the number of its matches over any history through "
+             "any instance; a single-use value is produced on its first request and never again. Tied to /repo by co-executing generated chains "
+             "driven from 0 to sum+3 matches through original and clones, compared per call on the returned tag / panic.",
+        design_ref="DESIGN.md section 7, C02",
+        technique="Coq proof (prefix sums, binary-search lemma, counting invariant) + model/implementation co-execution"),
+    "C03": dict(
+        text="Machine-checked theorems (Props/C03.v): the expectation a chain stands for (spec written from the documentation) is what the builder "
+             "accumulates; a pattern gets a failure line iff its count violates that expectation (both directions, every boundary); after an "
+             "error-free history the verdict is silent iff all expectations hold and every mentioned method was matched, and otherwise is exactly "
+             "one line per violated pattern plus one never-called line per unmatched method; drop, verify() and report() compute the same verdict. "
+             "Tied to /repo by co-executing histories steered to bound-1 / bound / bound+1 per pattern; compared on verdict and the multiset of named patterns.",
+        design_ref="DESIGN.md section 7, C03",
+        technique="Coq proof (iff / line-list identity) + model/implementation co-execution"),
+    "C04": dict(
+        text="Machine-checked theorems (Props/C04.v): assembling ANY clause list gives ordered patterns consecutive, disjoint slot ranges whose owner "
+             "is the one the left-to-right slot sequence (Spec/Slots.v) names; the i-th call to any ordered method is accepted iff slot i belongs to the "
+             "called method and its matcher accepts, it then reads position i-lo of that pattern's chain, otherwise it fails with out-of-range / wrong-order / "
+             "inputs-not-matched; unordered and unmentioned calls leave next_ordered, ordered counters and the invariant untouched. Tied to /repo by co-executing "
+             "ordered clause sequences with every accepted prefix extended by deviating calls.",
+        design_ref="DESIGN.md section 7, C04",
+        technique="Coq proof (range-partition invariant + refinement to the slot sequence) + model/implementation co-execution"),
 }
 
 NOT_YET = "check not built yet (work in progress in this session; designed in DESIGN.md section 7)"
